@@ -4,6 +4,7 @@ import (
 	"errors"
 	"io"
 	"runtime"
+	"strings"
 	"sync"
 	"sync/atomic"
 	"time"
@@ -193,6 +194,29 @@ func init() {
 		}
 		if where, ok := w.QueuedOnLock("server.(*userPanel)", "server.(*ActiveUser)"); ok {
 			return vk.ViolateSig("bookkeeping-stuck-on-lock", "a bookkeeping operation (admission, session closure, termination or usage upload) blocks for ever on a lock nobody will release (%s)", where)
+		}
+		// a goroutine (possibly the harness inspecting the books) is queued on a lock, and nobody who could hold one of
+		// the bookkeeping locks is anywhere inside the bookkeeping code: the lock was left locked by a call that returned
+		queued, holders := "", 0
+		for _, g := range w.Goroutines {
+			if g.OnLock() {
+				if len(g.Frames) > 0 && queued == "" {
+					queued = g.State
+					for _, f := range g.Frames {
+						if !strings.HasPrefix(f, "sync.") && !strings.HasPrefix(f, "internal/sync.") {
+							queued += " called from " + f
+							break
+						}
+					}
+				}
+				continue
+			}
+			if g.Has("server.(*userPanel)") || g.Has("server.(*ActiveUser)") || g.Has("server.dispatchConnection") || g.Has("server.serveSession") || g.Has("usermanager.") || g.Has("vFakeManager") {
+				holders++
+			}
+		}
+		if queued != "" && holders == 0 && strings.Contains(queued, "internal/server.") {
+			return vk.ViolateSig("lock-never-released", "a lock of the server's bookkeeping is never released: %s waits for ever while no goroutine is inside the bookkeeping code any more (a call returned with the lock held)", queued)
 		}
 		return nil
 	}
